@@ -153,6 +153,5 @@ def run_tie(progs, reports, opts=None, procs=16):
     jobs = [(i, p, reports[i], opts) for i, p in enumerate(progs)]
     if procs <= 1:
         return [check_one(j) for j in jobs]
-    ctx = mp.get_context('fork')
-    with ctx.Pool(procs) as pool:
-        return pool.map(check_one, jobs, chunksize=max(1, len(jobs) // (procs * 4)))
+    import common
+    return common.pmap(check_one, jobs, procs=procs)
